@@ -44,6 +44,7 @@ func genAlignment(r *RNG, maxW, maxN int) (ref string, names, seqs []string) {
 }
 
 var forceWideGenome bool
+var forceDenseWide bool
 
 func c03Gen(r *RNG, id string, agg bool) *Case {
 	c := NewCase("C03", id)
@@ -101,6 +102,27 @@ func c03Gen(r *RNG, id string, agg bool) *Case {
 			seqs = append(seqs, string(b))
 		}
 		c.Tag("positions-of-five-and-six-digits")
+	}
+	if forceDenseWide || (!agg && r.Chance(1, 24)) || (agg && r.Chance(1, 50)) {
+		// scale: a few thousand columns, rows that differ from the reference at every column or at every second one (rows
+		// of tens of kilobytes, thousands of distinct SNPs in the aggregate) between ordinary short rows - whatever a
+		// writer batches, pre-allocates or caches by size must not matter
+		w := r.PickInt([]int{2500, 3000, 4200, 5000, 6100})
+		ref = randSeq(r, w, symACGT, false)
+		other := func(step, phase int) string {
+			b := []byte(ref)
+			for i := phase; i < w; i += step {
+				b[i] = r.Pick(strings.ReplaceAll(symACGT, string(ref[i]), ""))
+			}
+			return string(b)
+		}
+		all := other(1, 0)
+		seqs = []string{mutateSeq(r, ref, symACGT, 1, 5, false), other(1, 0), mutateSeq(r, ref, symACGT, 1, 3, false), all, other(2, r.Intn(2)), all, mutateSeq(r, ref, "ACGTN-", 1, 8, true)}
+		if r.Bool() {
+			seqs = append(seqs, all, other(3, 0))
+		}
+		names = randNames(r, len(seqs), "")
+		c.Tag("dense-wide-rows")
 	}
 	hard := r.Bool()
 	c.SetBool("hard", hard).Set("ref", ref).Set("names", strings.Join(names, ",")).Set("seqs", strings.Join(seqs, ","))
